@@ -74,6 +74,12 @@ Eval(op, a, b, p) ==
       [] op = "boostCM_of_beta3" -> VecR(BoostCMBeta3(a, b))
       [] op = "boost" -> IF Len(b) = 4 THEN VecR(BoostP4(a, b)) ELSE VecR(BoostBeta3(a, b))
       [] op = "boostCM_of" -> IF Len(b) = 4 THEN VecR(BoostCMP4(a, b)) ELSE VecR(BoostCMBeta3(a, b))
+      \* comparisons of lattice points (distinct lattice points are far apart: every stored coordinate
+      \* system separates them by much more than the default tolerances; the exact semantics on
+      \* arbitrary stored records is Compare.tla / C12)
+      [] op = "equal" -> BoolR(BoolStr(a = b))
+      [] op = "not_equal" -> BoolR(BoolStr(a # b))
+      [] op = "isclose" -> BoolR(BoolStr(a = b))
       [] op = "is_parallel" -> BoolR(IsParallel(a, b, p[1]))
       [] op = "is_antiparallel" -> BoolR(IsAntiparallel(a, b, p[1]))
       [] op = "is_perpendicular" -> BoolR(IsPerpendicular(a, b, p[1]))
